@@ -875,6 +875,10 @@ json_print_meta_attr_leaflist(struct jsonpr_ctx *pctx)
     ly_print_(pctx->out, "[%s", (DO_FORMAT ? "\n" : ""));
     LEVEL_INC;
     LY_LIST_FOR(node, iter) {
+        if (!lyd_node_should_print(iter, pctx->options)) {
+            /* no value was printed for this instance, so no metadata either */
+            goto next_inst;
+        }
         PRINT_COMMA;
         if (iter->schema && ((iter->flags & LYD_DEFAULT) || ((pctx->options & LYD_PRINT_WD_ALL_TAG) && lyd_is_default(iter)))) {
             iter_wdmod = wdmod;
@@ -897,6 +901,7 @@ json_print_meta_attr_leaflist(struct jsonpr_ctx *pctx)
             ly_print_(pctx->out, "%*snull", INDENT);
         }
         LEVEL_PRINTED;
+next_inst:
         if (!matching_node(iter, iter->next)) {
             break;
         }
@@ -993,8 +998,9 @@ json_print_node(struct jsonpr_ctx *pctx, const struct lyd_node *node)
     if (!lyd_node_should_print(node, pctx->options)) {
         if (json_print_array_is_last_inst(pctx, node)) {
             json_print_array_close(pctx);
+            LEVEL_PRINTED;
         }
-        return LY_SUCCESS;
+        goto leaflist_meta;
     }
 
     if (!node->schema) {
@@ -1026,6 +1032,7 @@ json_print_node(struct jsonpr_ctx *pctx, const struct lyd_node *node)
 
     pctx->level_printed = pctx->level;
 
+leaflist_meta:
     if (pctx->first_leaflist && !matching_node(node->next, pctx->first_leaflist)) {
         json_print_meta_attr_leaflist(pctx);
         pctx->first_leaflist = NULL;
